@@ -16,7 +16,12 @@ step = {'kind': 'set',     'in': [[k, data]..], 'pairs': [[k, tree]..]}
      optional on every kind except configvars: 'foreach': [tree..]  (non-empty literal)
      | {'kind': 'add', ...} / {'kind': 'foreachref', ...}: outside the model (monitor-only), raw yaml
 case = {'main': [step..], 'other': [step..], 'vars': [[k, data]..], 'dict_in': [[k, data]..],
-        'shortcut': bool, 'threads': None | {'schedules': [[0,1,1,0..]..]}}
+        'shortcut': bool, 'threads': None | {'schedules': [[0,1,1,0..]..]},
+        'parser': None | 'list' | 'keys' | 'keyvaluepairs' | 'string'   (context_parser of main),
+        'sc_parser_args': None | [str..]   (config.shortcuts[..]['parser_args'], needs shortcut),
+        'args_in': None | [str..]          (args_in the caller passes on every run of main)}
+Strings and bools only come from context parsers; observations encode them as ints (enc)
+- they are immutable scalars, so only their value matters to the heap model.
 """
 import json
 
@@ -26,6 +31,17 @@ STEP_MODULE = {'set': 'pypyr.steps.set', 'append': 'pypyr.steps.append',
                'merge': 'pypyr.steps.contextmerge', 'default': 'pypyr.steps.default',
                'py': 'pypyr.steps.py', 'copy': 'pypyr.steps.contextcopy',
                'configvars': 'pypyr.steps.configvars', 'add': 'pypyr.steps.add'}
+
+PARSER_MODULE = {'list': 'pypyr.parser.list', 'keys': 'pypyr.parser.keys',
+                 'keyvaluepairs': 'pypyr.parser.keyvaluepairs', 'string': 'pypyr.parser.string'}
+TRUE_CODE = -1
+FALSE_CODE = -2
+
+
+def enc(s):
+    """injective int code of a string (observations and model terms use the same code)."""
+    return 10 ** 6 + int.from_bytes(s.encode('utf-8'), 'big') * 256 + len(s.encode('utf-8'))
+
 
 # ---------------------------------------------------------------- yaml
 
@@ -84,7 +100,7 @@ def body_arg(st):
     return None
 
 
-def emit_pipeline(steps, turn=False):
+def emit_pipeline(steps, turn=False, parser=None):
     """yaml text; real step j is at index 2j (+ a turnstile step before it when turn),
     each followed by the probe step."""
     lines = ['steps:']
@@ -109,6 +125,8 @@ def emit_pipeline(steps, turn=False):
         lines.append('  - c12_probe')
     if len(lines) == 1:
         lines = ['steps: []']
+    if parser:
+        lines.insert(0, f'context_parser: {PARSER_MODULE[parser]}')
     return '\n'.join(lines) + '\n'
 
 
@@ -141,7 +159,46 @@ def roots(case):
                 out.append(((pname, j, k), v))
     for k, v in case['vars']:
         out.append((('vars', None, k), v))
+    if case.get('shortcut') and case.get('sc_parser_args') is not None:
+        out.append((('shortcut', None, 'parser_args'), {'l': [enc(a) for a in case['sc_parser_args']]}))
     return out
+
+
+def parser_ops(case, root_index, direct=False):
+    """ops of Pipeline._prepare_context for a run of main: what the context parser puts into the
+    context, given where its argument list comes from (Pipeline.new_pipe_and_args).
+    direct = main run by name (threaded tier), not through the shortcut."""
+    parser = case.get('parser')
+    args_in = case.get('args_in') or None
+    via_sc = bool(case.get('shortcut')) and not direct
+    sc_args = case.get('sc_parser_args') if via_sc else None
+    shared = False
+    if sc_args:                                   # `if parser_args:`
+        if args_in:
+            context_args = sc_args + args_in      # a new list
+        else:
+            context_args = sc_args                # list(parser_args) since fd90231; the
+            shared = True                         # shortcut's own list object before
+    else:
+        context_args = args_in
+    # Pipeline._get_parse_input with parse_args None
+    dict_in_given = bool(case['dict_in']) if via_sc else True
+    parse = not (not context_args and dict_in_given)
+    if not parse or not parser:
+        return []
+    if parser == 'list':
+        if not context_args:
+            return [('SetFmt', 'argList', {'l': []})]
+        if shared:
+            return [('InjectIn', 'argList', root_index[('shortcut', None, 'parser_args')])]
+        return [('SetFmt', 'argList', {'l': [enc(a) for a in context_args]})]
+    if not context_args:
+        return [('SetInt', 'argString', enc(''))] if parser == 'string' else []
+    if parser == 'keys':
+        return [('SetInt', a, TRUE_CODE) for a in context_args]
+    if parser == 'keyvaluepairs':
+        return [('SetInt', a.partition('=')[0], enc(a.partition('=')[2])) for a in context_args]
+    return [('SetInt', 'argString', enc(' '.join(context_args)))]
 
 # ---------------------------------------------------------------- Coq
 
@@ -242,7 +299,7 @@ def render_op(o):
     if t == 'BindElem':
         return f'BindElem {cstr(o[1])} {cstr(o[2])} {o[3]}%nat'
     if t == 'SetInt':
-        return f'SetInt {cstr(o[1])} {o[2]}%Z'
+        return f'SetInt {cstr(o[1])} ({o[2]})%Z'
     if t == 'Probe':
         return 'Probe'
     raise ValueError(o)
@@ -253,6 +310,14 @@ def pipeline_ops(case, pname, blocks=False):
     root_index = {w: n for n, (w, _) in enumerate(rs)}
     var_roots = [(w[2], n) for n, (w, _) in enumerate(rs) if w[0] == 'vars']
     bl = [step_ops(st, root_index, (pname, j), var_roots) for j, st in enumerate(case[pname])]
+    if pname == 'main':
+        # the parser runs before the first step (in the threaded tier: before the first turnstile,
+        # where it only creates fresh objects, so it commutes with the other thread's steps)
+        pre = parser_ops(case, root_index, direct=blocks)
+        if bl:
+            bl[0] = pre + bl[0]
+        elif pre:
+            bl = [pre]
     return bl if blocks else [o for b in bl for o in b]
 
 
